@@ -880,10 +880,19 @@ fn partial_version<'s>(input: &mut &'s str) -> PResult<Partial, SemverParseError
     } else {
         (vec![], vec![])
     };
+    // As in node-semver, everything after the first wildcard is a wildcard,
+    // and a qualifier only counts on a full major.minor.patch.
+    let minor = major.and(minor.flatten());
+    let patch = minor.and(patch.flatten());
+    let (pre, build) = if patch.is_some() {
+        (pre, build)
+    } else {
+        (vec![], vec![])
+    };
     Ok(Partial {
         major,
-        minor: minor.flatten(),
-        patch: patch.flatten(),
+        minor,
+        patch,
         pre_release: pre,
         build,
     })
